@@ -210,7 +210,8 @@ func rewrite(path string, src []byte, pkg string) ([]byte, bool, error) {
 		}
 	}
 	needSched, needTime := false, false
-	if pkg == "cache" {
+	// clock reads (time.Now, time.Since, time.Until) of the request-path packages go to the virtual clock
+	if pkg == "cache" || pkg == "server" || pkg == "location" || pkg == "upstream" || pkg == "compress" {
 		timeName := ""
 		for _, im := range f.Imports {
 			if im.Path.Value == `"time"` {
@@ -220,6 +221,19 @@ func rewrite(path string, src []byte, pkg string) ([]byte, bool, error) {
 				}
 			}
 		}
+		if timeName != "" {
+			ast.Inspect(f, func(n ast.Node) bool {
+				if v, ok := n.(*ast.SelectorExpr); ok {
+					if id, ok := v.X.(*ast.Ident); ok && id.Name == timeName && id.Obj == nil && (v.Sel.Name == "Now" || v.Sel.Name == "Since" || v.Sel.Name == "Until") {
+						id.Name = "vtime"
+						needTime = true
+					}
+				}
+				return true
+			})
+		}
+	}
+	if pkg == "cache" {
 		var ferr error
 		selectOK := map[*ast.SelectStmt]bool{}
 		rewriteStmts := func(list []ast.Stmt) {
@@ -266,11 +280,6 @@ func rewrite(path string, src []byte, pkg string) ([]byte, bool, error) {
 				if v.Op == token.ARROW {
 					// a receive used as an expression (value needed): only struct{} channels exist; unsupported elsewhere
 					// (statement-level receives were already replaced above and no longer appear here)
-				}
-			case *ast.SelectorExpr:
-				if id, ok := v.X.(*ast.Ident); ok && timeName != "" && id.Name == timeName && v.Sel.Name == "Now" && id.Obj == nil {
-					id.Name = "vtime"
-					needTime = true
 				}
 			}
 			return true
